@@ -147,6 +147,69 @@ def inject_shared(path, fa_variant, kind, case, rng):
     return n
 
 
+SYN_SOURCES = ['gSNP', 'gINDEL', 'sSNV', 'sINDEL', 'RNAEdit', 'gMNV']
+AA_SYN = 'ACDEFGHIKLMNPQRSTVWYKR'
+
+
+def synth_input(rng):
+    """G-FASTA for splitFasta: 4-6 sources, each with its own GVF of small records on the transcripts of a generated reference;
+    peptides with 1-3 base entries whose 1-3 variant ids come from different sources, so that several entries of one peptide have
+    source sets of equal size with crossing ranks; SECT / W2F ids and ORF ids of non-coding transcripts occur as well."""
+    from harness.gen import refgen
+    ref = refgen.make_reference(rng, n_genes=rng.randint(2, 3), coding_p=0.6, isoforms=(1, 1), min_exons=1, max_exons=3,
+                                exon_len=(40, 100))
+    c = cv.Case()
+    c.ref, c.stratum = ref, 'synth'
+    c.cfg = cv.gen_config(rng, 'synth', light=True)
+    srcs = rng.sample(SYN_SOURCES, rng.randint(4, 6))
+    per_tx = {}
+    files = []
+    used = set()
+    for src in srcs:
+        recs = []
+        for _ in range(rng.randint(3, 7)):
+            tx = rng.choice(list(ref.all_txs()))
+            v = gvfgen.rand_small(rng, ref, tx, tx.tx2gene(rng.randrange(tx.tx_len())), max_indel=2,
+                                  snv_p=0.2 if 'INDEL' in src else 0.9)
+            if v is None or (tx.gene.id, v.id) in used:
+                continue
+            used.add((tx.gene.id, v.id))
+            recs.append(v)
+            per_tx.setdefault(tx.id, []).append((v, src))
+        if recs:
+            files.append((f'{src}.gvf', src, recs))
+    rng.shuffle(files)
+    c.files = files
+    txs = {t.id: t for t in ref.all_txs()}
+    fa = []
+    seen = set()
+    n = 0
+    for _ in range(rng.randint(5, 30)):
+        seq = ''.join(rng.choice(AA_SYN) for _ in range(rng.randint(6, 20)))
+        if seq in seen:
+            continue
+        seen.add(seq)
+        ents = []
+        for _ in range(rng.choice([1, 2, 2, 3])):
+            cand = [t for t in per_tx if per_tx[t]]
+            if not cand:
+                break
+            t = rng.choice(cand)
+            vs = rng.sample(per_tx[t], min(len(per_tx[t]), rng.choice([1, 2, 2, 3])))
+            ids = [v.id for v, _ in vs]
+            if rng.random() < 0.15:
+                ids.append(rng.choice([f'SECT-{rng.randint(1, 200)}', f'W2F-{rng.randint(1, 10)}']))
+            f = [t] + ids
+            if not txs[t].coding:
+                f.append(f'ORF{rng.randint(1, 3)}')
+            n += 1
+            ent = '|'.join(f + [str(n)])
+            ents.append(ent)
+        if ents:
+            fa.append((' '.join(ents), seq))
+    return c, fa
+
+
 def run_case(spec):
     from moPepGen.cli.split_fasta import split_fasta
     from moPepGen.cli.merge_fasta import merge_fasta
@@ -154,37 +217,49 @@ def run_case(spec):
     from moPepGen.cli.summarize_fasta import summarize_fasta
     from moPepGen.cli.decoy_fasta import decoy_fasta
     rng = random.Random(spec['seed'])
+    synthetic = spec.get('kind') == 'synth'
     case = None
-    for k in range(6):
-        case = cv.build_case({'seed': common.hash64(spec['seed'], k), 'stratum': rng.choice(
-            ['small', 'multi', 'as', 'fusion_var', 'circ_var', 'sec', 'multi']),
-            'cfg': {'rule': 'trypsin', 'exception': None, 'sect': rng.random() < 0.4, 'w2f': rng.random() < 0.4,
-                    'min_length': 5, 'min_mw': 0., 'miscleavage': 2}})
-        if case is not None:
-            break
-    if case is None:
-        return {'skipped': True}
-    # one GVF per source: small records by kind, others by family
-    by_src = {}
-    for r in case.recs():
-        if r.family == 'small':
-            src = {'SNV': 'gSNP', 'INDEL': 'gINDEL', 'MNV': 'gMNV'}[r.kind]
-        else:
-            src = {'as': 'AltSplice', 'fusion': 'Fusion', 'circ': 'circRNA'}[r.family]
-        by_src.setdefault((src, r.family), []).append(r)
-    order_files = list(by_src)
-    rng.shuffle(order_files)
-    case.files = [(f'{src}.gvf', src, by_src[(src, fam)]) for src, fam in order_files]
+    if synthetic:
+        case, synth_fa = synth_input(rng)
+        spec = dict(spec, multi=False)
+    else:
+        for k in range(6):
+            case = cv.build_case({'seed': common.hash64(spec['seed'], k), 'stratum': rng.choice(
+                ['small', 'multi', 'as', 'fusion_var', 'circ_var', 'sec', 'multi']),
+                'cfg': {'rule': 'trypsin', 'exception': None, 'sect': rng.random() < 0.4, 'w2f': rng.random() < 0.4,
+                        'min_length': 5, 'min_mw': 0., 'miscleavage': 2}})
+            if case is not None:
+                break
+        if case is None:
+            return {'skipped': True}
+        # one GVF per source: small records by kind, others by family
+        by_src = {}
+        for r in case.recs():
+            if r.family == 'small':
+                src = {'SNV': 'gSNP', 'INDEL': 'gINDEL', 'MNV': 'gMNV'}[r.kind]
+            else:
+                src = {'as': 'AltSplice', 'fusion': 'Fusion', 'circ': 'circRNA'}[r.family]
+            by_src.setdefault((src, r.family), []).append(r)
+        order_files = list(by_src)
+        rng.shuffle(order_files)
+        case.files = [(f'{src}.gvf', src, by_src[(src, fam)]) for src, fam in order_files]
     wd = drivers.case_dir('c18-')
     viol = []
     counters = {'cases': 1}
     try:
         paths = cv.write_case(case, wd)
-        try:
-            fa, _ = cvmon.execute(case, wd, paths)
-        except Exception:
-            # callVariant only PRODUCES the input of this check; its crashes on valid input are decided by C01
-            return {'nontrivial': False, 'feature': None, 'counters': {'cases': 1, 'input_generation_crashed': 1}}
+        if synthetic:
+            fa = synth_fa
+            with open(f'{wd}/out.fasta', 'w') as fh:
+                for h_, s_ in fa:
+                    fh.write(f'>{h_}\n{s_}\n')
+            counters['synthetic_cases'] = 1
+        else:
+            try:
+                fa, _ = cvmon.execute(case, wd, paths)
+            except Exception:
+                # callVariant only PRODUCES the input of this check; its crashes on valid input are decided by C01
+                return {'nontrivial': False, 'feature': None, 'counters': {'cases': 1, 'input_generation_crashed': 1}}
         if not fa:
             return {'nontrivial': False, 'feature': None, 'counters': {'cases': 1, 'empty_fasta': 1}}
         novel_fa, alt_fa = extra_databases(case, wd, rng) if spec.get('multi', True) else (None, None)
@@ -419,6 +494,8 @@ def check(rep, tier, seed, specs=None, n_override=None):
     if specs is None:
         n = n_override or (1200 if quick else 60000)
         specs = [{'seed': common.hash64('c18', 'fixed' if i < n // 2 else seed, i)} for i in range(n)]
+        ns_ = n * 2
+        specs += [{'kind': 'synth', 'seed': common.hash64('c18s', 'fixed' if i < ns_ // 2 else seed, i)} for i in range(ns_)]
     results, lost = common.shard_run('c18', specs, timeout_s=1500 if quick else 5 * 3600)
     rep.rule = ('real callVariant FASTAs (SNV/indel/MNV, AS, fusion, circRNA; SECT/W2F on or off) with one GVF per source in random order x '
                 'splitFasta options (order-source permutations incl. internal sources, group-source, max-source-groups 1-3, additional-split) -> '
@@ -427,7 +504,8 @@ def check(rep, tier, seed, specs=None, n_override=None):
                 'FASTAs unites entries; encodeFasta (plain and decoyed input) inverted through the .dict; summarizeFasta totals == #peptides and '
                 'each row == size of the corresponding split database with unlimited groups. Half of the cases add a real callNovelORF and / or '
                 'callAltTranslation FASTA of the same reference as further inputs of splitFasta / summarizeFasta, with 1-3 sequences of the variant '
-                'FASTA repeated in them under entries of their own kind (entries of one sequence from several files must be united). Wildcards (+,*) are not generated. '
+                'FASTA repeated in them under entries of their own kind (entries of one sequence from several files must be united). Two thirds of the cases '
+                'use generated FASTAs over 4-6 sources (entries with 1-3 ids from different sources: equal-size source sets with crossing ranks). Wildcards (+,*) are not generated. '
                 'non-trivial = non-empty FASTA; distinct = option/source vector.')
     rep.absorb(results, lost)
     for k in ('split_runs', 'merge_runs', 'encode_runs', 'summarize_runs', 'assignments'):
